@@ -115,6 +115,28 @@ def check_whole(case, ctx):
     for name in BATCH:
         fn = getattr(M, name)
         vforms.invariant(ctx, name + "[batch]", lambda a, b: fn(a, b), [S1, S2] if name in MATRIX else [Q1, Q2])
+    # a distance is symmetric, whatever the element types of its two arguments: one argument typed int (or float32), the other float64, in both orders -
+    # both calls answer alike or both refuse alike
+    g_ = rq.refR(np.array([0.5, -0.5, 0.5, 0.5]))
+    for name in MATRIX + QUAT + [b + "[batch]" for b in BATCH]:
+        base = name.replace("[batch]", "")
+        fn = getattr(M, base)
+        if name.endswith("[batch]"):
+            A_, B_ = (S1, np.array([g_ @ x for x in S2])) if base in MATRIX else (Q1, np.array([rq.qmul(np.array([0.5, -0.5, 0.5, 0.5]), x) for x in Q2]))
+        else:
+            A_, B_ = (R1, g_ @ R2) if base in MATRIX else (e1, rq.qmul(np.array([0.5, -0.5, 0.5, 0.5]), e2))
+        for lab, conv in (("int64", lambda x: np.round(x).astype(np.int64)), ("float32", lambda x: x.astype(np.float32))):
+            a_t = conv(A_)
+            o1, o2 = call(lambda: np.asarray(fn(a_t.copy(), B_.copy()), float)), call(lambda: np.asarray(fn(B_.copy(), a_t.copy()), float))
+            if not o1.ok and not o2.ok:
+                ctx.note("%s refuses a %s argument in either position (%s)" % (name, lab, o1.exc_name))
+                continue
+            if o1.ok != o2.ok:
+                bad = o2 if o1.ok else o1
+                ctx.ok("a distance answers alike for (a, b) and (b, a) when the two arguments have different element types", False,
+                       {"types": [lab, "float64"], "refused_order": "(b, a)" if o1.ok else "(a, b)", "exc": "%s: %s" % (bad.exc_name, str(bad.exc)[:80])}, route=name)
+                continue
+            ctx.le("a distance answers alike for (a, b) and (b, a) when the two arguments have different element types", float(np.abs(o1.value - o2.value).max()), 1e-13, {"types": [lab, "float64"]}, route=name)
 
 
 def nontrivial(case):
